@@ -26,7 +26,7 @@ static const uint64_t kBoundary[] = {0, 23, 24, 255, 256, 65535, 65536, 0xffffff
 enum { OP_UINT8, OP_UINT16, OP_UINT32, OP_UINT64, OP_NEG8, OP_NEG16, OP_NEG32, OP_NEG64, OP_BSTR, OP_TSTR, OP_SIMPLE, OP_F2, OP_F4, OP_F8,
        OP_ARR_DEF, OP_ARR_INDEF, OP_MAP_DEF, OP_MAP_INDEF, OP_TAG, OP_BSTR_INDEF, OP_TSTR_INDEF, OP_DUP, OP_EMPTY, OP_NOP, OP_COUNT };
 
-struct Stats { size_t ops = 0, shared = 0, partial = 0, handleless = 0, nan = 0, indef = 0, boundary = 0; bool alloc_failed = false; };
+struct Stats { size_t ops = 0, shared = 0, partial = 0, handleless = 0, late_handle = 0, nan = 0, indef = 0, boundary = 0; bool alloc_failed = false; };
 
 static inline float u2f(uint32_t u) { float f; memcpy(&f, &u, 4); return f; }
 static inline double u2d(uint64_t u) { double f; memcpy(&f, &u, 8); return f; }
@@ -204,9 +204,16 @@ struct Interp {
           size_t chunks = (size_t)p % 5;
           for (size_t j = 0; j < chunks && !stats.alloc_failed; j++) {
             uint8_t cb = r.u8(); size_t l = cb % 5; uint8_t tmp[8]; for (size_t q = 0; q < l; q++) tmp[q] = r.u8();
-            ref::Node cn; cbor_item_t* c = make_defstring(type, tmp, l, (cb >> 4) % 3 == 2 ? 2 : (cb >> 4) % 3, cn);
+            int hsel = (cb >> 4) % 4;   // 0 build, 1 new + set_handle, 2 no handle at all, 3 attached empty, payload set afterwards
+            ref::Node cn; cbor_item_t* c = make_defstring(type, tmp, l, hsel == 3 ? 2 : hsel, cn);
             if (!c) { stats.alloc_failed = true; break; }
             bool ok = type == 2 ? cbor_bytestring_add_chunk(s, c) : cbor_string_add_chunk(s, c);
+            if (ok && hsel == 3) {
+              unsigned char* h = handle_copy(tmp, l);
+              if (!h) { cbor_decref(&c); stats.alloc_failed = true; break; }
+              if (type == 2) cbor_bytestring_set_handle(c, h, l); else cbor_string_set_handle(c, h, l);
+              cn.bytes.assign(tmp, tmp + l); stats.handleless--; stats.late_handle++;
+            }
             cbor_decref(&c);
             if (!ok) { stats.alloc_failed = true; break; }
             n.kids.push_back(std::move(cn));
